@@ -143,6 +143,18 @@ def partial_write_cases(draw):
     return {"e": e, "bind": bind, "cells": []}
 
 
+@st.composite
+def bit_scan_cases(draw):
+    """bsf / bsr of constants with one or two bits set, at every bit position (the top bit included)"""
+    w = draw(st.sampled_from([16, 32]))
+    k = draw(st.integers(0, w - 1))
+    v = (1 << k) | (draw(st.sampled_from([0, 0, 1 << draw(st.integers(0, w - 1))])))
+    e = ["op", draw(st.sampled_from(["bsf", "bsr"])), [["id", "a%d" % w, w]]]
+    if draw(st.booleans()):
+        e = ["op", "+", [e, ["id", "b%d" % w, w]]]
+    return {"e": e, "bind": {"a%d" % w: ["int", w, v]}, "cells": []}
+
+
 CORE_OPS = set(["+", "*", "^", "&", "|", "-", "<<", ">>", "a>>", "<<<", ">>>", "==", "parity", "!", "<"])
 
 
@@ -386,7 +398,7 @@ def w_run(run, st_, k, n):
             st_.nt((sshow(e), repr(sorted(case["bind"])), len(case["cells"])))
             st_.sample({"expr": sshow(e), "state": show_state(case)})
         return r
-    runner.hyp_drive(run, st_, st.one_of(cases(), cases(), cases(), cases(), cases(), cases(), cases(), partial_write_cases()), orc, n, run.seed * 1000 + k)
+    runner.hyp_drive(run, st_, st.one_of(cases(), cases(), cases(), cases(), cases(), cases(), cases(), cases(), cases(), cases(), cases(), cases(), cases(), cases(), partial_write_cases(), partial_write_cases(), bit_scan_cases()), orc, n, run.seed * 1000 + k)
 
 
 def main(run):
